@@ -13,7 +13,9 @@
 (***************************************************************************)
 EXTENDS TheoVM
 
-Tr == ndJsonDeserialize(IOEnv.TRACE)
+\* read once (register 10), not on every reference to Tr; validation runs with one worker
+ASSUME TLCSet(10, ndJsonDeserialize(IOEnv.TRACE))
+Tr == TLCGet(10)
 \* which logged fields are bound (so that each property decides with its own observables)
 Fields == IOEnv.FIELDS
 Has(ch) == \E i \in 1..Len(Fields) : SubSeq(Fields, i, i) = ch
@@ -93,6 +95,8 @@ TSpec == TInit /\ [][TNext]_tvars
 
 NotAccepted == l <= Len(Tr)
 \* progress register for rejection reports (workers = 1)
-Progress == TLCSet(1, l)
-ReportProgress == PrintT(<<"maxl", TLCGet(1), "of", Len(Tr)>>)
+\* acceptance without an error trace: register 1 holds the furthest event reached (one worker)
+ASSUME TLCSet(1, 0)
+Progress == TLCSet(1, IF l > TLCGet(1) THEN l ELSE TLCGet(1))
+Accepted == PrintT(<<"maxl", TLCGet(1), "of", Len(Tr)>>) /\ TLCGet(1) > Len(Tr)
 =============================================================================
